@@ -10,7 +10,8 @@ LEVEL = 'exploration'
 RULE = ('F: every vector of {SUCCESSFUL, INPROGRESS, NOTSTARTED, STOPPED, '
         'FAILED} over 1-4 integration branches x bypass source {none, admin '
         'comment, per-author, command line} x build key {"", "pre-merge"} '
-        'through the real handle_comments + check_build_status (exhaustive, '
+        'through the real handle_comments + check_build_status on the real '
+        'git.Branch objects of a real four-branch repository (exhaustive, '
         'each cell distinct); W: hostile-CI histories in the three queue '
         'modes; for every job that ends Queued / SuccessMessage the source '
         'tip and every w/ tip (remote after the job; for direct merges the '
@@ -19,7 +20,8 @@ RULE = ('F: every vector of {SUCCESSFUL, INPROGRESS, NOTSTARTED, STOPPED, '
         'FAILED/STOPPED tip; pending builds are answered silently; '
         'non-trivial W case = (layout, mode, outcome, tip statuses)')
 ASSUMPTIONS = [
-    'F part: stub branches and host; W part: mock host + real git + real '
+    'F part: real git repository and real Branch objects, stub host '
+    '(status table); W part: mock host + real git + real '
     'Bert-E, sampled histories',
     'for a direct merge the integration commits are identified through the '
     'status queries Bert-E made to the host during the job',
@@ -34,15 +36,45 @@ STATES = ('SUCCESSFUL', 'INPROGRESS', 'NOTSTARTED', 'STOPPED', 'FAILED')
 LAYOUTS = ['d1', 'd2', 's1d2', 'd1M1d2', 's2d2', 'd3', 'h1d2']
 
 
-class _Branch:
-    def __init__(self, name, sha):
-        self.name, self.sha = name, sha
+_REAL = {}
 
-    def get_latest_commit(self):
-        return self.sha
 
-    def __str__(self):
-        return self.name
+def real_repo():
+    """One real git repository with four integration-like branches b0..b3
+    (one commit each), opened through the real bert_e.lib.git classes: the
+    gate may ask for the tips any way it likes (Branch.get_latest_commit,
+    git rev-parse, for-each-ref ...)."""
+    if _REAL:
+        return _REAL
+    import atexit
+    import os
+    import shutil
+    import subprocess
+    import tempfile
+    from vf.common import env
+    from bert_e.lib import git as bgit
+    d = tempfile.mkdtemp(prefix='vf-c06-', dir=env.scratch_root())
+    atexit.register(shutil.rmtree, d, True)
+    e = dict(os.environ, GIT_AUTHOR_NAME='h', GIT_AUTHOR_EMAIL='h@x.invalid',
+             GIT_COMMITTER_NAME='h', GIT_COMMITTER_EMAIL='h@x.invalid',
+             VF_SHIM_OFF='1')
+
+    def git(*a):
+        return subprocess.run(['git'] + list(a), cwd=d, env=e, check=True,
+                              stdout=subprocess.PIPE, text=True).stdout
+    git('init', '-q')
+    git('commit', '-q', '--allow-empty', '-m', 'root')
+    shas = []
+    for i in range(4):
+        git('checkout', '-q', '-b', 'b%d' % i)
+        git('commit', '-q', '--allow-empty', '-m', 'tip of b%d' % i)
+        shas.append(git('rev-parse', 'HEAD').strip())
+    repo = bgit.Repository(None)
+    shutil.rmtree(repo.tmp_directory, ignore_errors=True)
+    repo.tmp_directory = repo.cmd_directory = d
+    _REAL.update(repo=repo, shas=shas,
+                 branches=[bgit.Branch(repo, 'b%d' % i) for i in range(4)])
+    return _REAL
 
 
 def f_cell(vec, source, key, acc):
@@ -62,11 +94,12 @@ def f_cell(vec, source, key, acc):
     stubs.set_cmd_line_options(cmdline)
     pr = stubs.StubPR()
     pr.comments = comments
-    job = stubs.make_job(settings, pr)
+    real = real_repo()
+    job = stubs.make_job(settings, pr, git_repo=real['repo'])
     gwf.handle_comments(job)
-    branches = [_Branch('b%d' % i, 'sha%d' % i) for i in range(len(vec))]
-    for b, st in zip(branches, vec):
-        job.project_repo.statuses[(b.sha, key)] = st
+    branches = real['branches'][:len(vec)]
+    for sha, st in zip(real['shas'], vec):
+        job.project_repo.statuses[(sha, key)] = st
     try:
         gwf.check_build_status(job, branches)
         got = 'pass'
@@ -107,14 +140,17 @@ def f_cell(vec, source, key, acc):
                     'outcome': got})
 
 
-def run_f(acc):
+def run_f(acc, shard, nshards):
     from vf.func import fast
     fast.install()
+    i = 0
     for n in range(1, 5):
         for vec in itertools.product(STATES, repeat=n):
             for source in ('none', 'comment', 'per_author', 'cmdline'):
                 for key in ('', 'pre-merge'):
-                    f_cell(vec, source, key, acc)
+                    i += 1
+                    if i % nshards == shard:
+                        f_cell(vec, source, key, acc)
     acc.exhaustive['F: 5^n vectors n=1..4 x 4 bypass sources x 2 keys'] = True
 
 
@@ -140,8 +176,7 @@ def plan(tier, seed):
 
 def run_shard(spec, acc):
     runner.quiet()
-    if spec['shard'] == 0:
-        run_f(acc)
+    run_f(acc, spec['shard'], spec['nshards'])
     prof = gen.profile(p_green=0.6, p_forward=0.65,
                        w={'status': 10, 'stale_status': 3, 'push_commit': 5,
                           'commit_event': 8, 'admin': 0.3})
